@@ -113,7 +113,7 @@ theorem structEntries_step (fuel : Nat) (cfg : Cfg) (fields : List (String × Ty
 theorem fieldEntriesFrom_cons (cfg : Cfg) (fs : FieldFns) (deny : Bool) (k v : ENode) (es : List (ENode × ENode))
     (acc : List (String × Val)) :
     fieldEntriesFrom cfg fs deny ((k, v) :: es) acc =
-      match identOf k with
+      match identOf cfg k with
       | none => none
       | some name =>
         match fs.find? (fun f => f.1.toList == name) with
@@ -139,7 +139,7 @@ theorem structEntries_spec (X : MCtx) (cfg : Cfg) (df : Bool) (fields : List (St
   induction st using ASt.wf_induction with
   | h st ih =>
     intro seen m c hok hrel
-    have hnk := nextKey_spec X cfg (.inr ()) identFn d (fun e _ => keyRef_ident cfg e.1) seen st m c hok hrel
+    have hnk := nextKey_spec X cfg (.inr ()) (identFn cfg) d (fun e _ => keyRef_ident cfg e.1) seen st m c hok hrel
     rw [remaining_step]
     cases hstep : nextStep cfg.dup st seen with
     | fail =>
@@ -169,9 +169,9 @@ theorem structEntries_spec (X : MCtx) (cfg : Cfg) (df : Bool) (fields : List (St
           (remaining cfg.dup st' (fpOf k :: seen)).bind
             (fun es => fieldEntriesFrom cfg (fieldFns cfg fields) deny ((k, v) :: es) acc) := by
         intro acc; cases remaining cfg.dup st' (fpOf k :: seen) <;> rfl
-      cases hid : identOf k with
+      cases hid : identOf cfg k with
       | none =>
-        have hk : identFn k = none := by simp [identFn, hid]
+        have hk : identFn cfg k = none := by simp [identFn, hid]
         simp only [hk] at hnk
         obtain ⟨n, hn⟩ := hnk
         refine ⟨n + 1, fun fuel hf acc => ?_⟩
@@ -184,7 +184,7 @@ theorem structEntries_spec (X : MCtx) (cfg : Cfg) (df : Bool) (fields : List (St
         rw [this]
         exact Or.inl (by simp)
       | some name =>
-        have hk : identFn k = some (.str name) := by simp [identFn, hid]
+        have hk : identFn cfg k = some (.str name) := by simp [identFn, hid]
         simp only [hk] at hnk
         obtain ⟨n1, m1, c1, hrelv, hn1⟩ := hnk
         have hlook := lookupField_fieldFns cfg name fields
